@@ -1,5 +1,7 @@
 package calendar
 
+import "github.com/6tail/lunar-go/LunarUtil"
+
 // C05-H1: day and hour pillars (year-symbolic, in-package: the real computeDay / computeTime).
 func VH_C05_DayTime() {
 	y, m, d := vhDate("")
@@ -74,5 +76,20 @@ func VH_C05_YearMonth() {
 	vAssert("month-gan-exact", l.monthGanIndexExact == specMod(yin+ke-3, 10))
 	vAssert("month-parity", l.monthGanIndex%2 == l.monthZhiIndex%2 && l.monthGanIndexExact%2 == l.monthZhiIndexExact%2)
 	vAssert("year-parity", l.yearGanIndex%2 == l.yearZhiIndex%2 && l.yearGanIndexByLiChun%2 == l.yearZhiIndexByLiChun%2 && l.yearGanIndexExact%2 == l.yearZhiIndexExact%2)
+	// the objects through which the pillars are read under a chosen day convention: the hour object and the chart
+	vEach(func() {
+		t := l.GetTime()
+		vAssert("hour-object-pillar", t.GetZhiIndex() == ((h+1)/2)%12 && t.GetGanIndex() == (2*(l.dayGanIndexExact%5)+t.GetZhiIndex())%10)
+	})
+	vEach(func() {
+		ec := l.GetEightChar()
+		ec.SetSect(1)
+		vAssert("chart-day-early-rat", ec.GetDayGanIndex() == l.dayGanIndexExact && ec.GetDayZhiIndex() == l.dayZhiIndexExact &&
+			ec.GetDayGan() == LunarUtil.GAN[l.dayGanIndexExact+1] && ec.GetDayZhi() == LunarUtil.ZHI[l.dayZhiIndexExact+1])
+		ec.SetSect(2)
+		vAssert("chart-day-late-rat", ec.GetDayGanIndex() == l.dayGanIndex && ec.GetDayZhiIndex() == l.dayZhiIndex &&
+			ec.GetDayGan() == LunarUtil.GAN[l.dayGanIndex+1] && ec.GetDayZhi() == LunarUtil.ZHI[l.dayZhiIndex+1])
+		vAssert("chart-hour", ec.GetTimeGan() == LunarUtil.GAN[l.timeGanIndex+1] && ec.GetTimeZhi() == LunarUtil.ZHI[l.timeZhiIndex+1])
+	})
 	vReach("C05b")
 }
